@@ -438,7 +438,11 @@ def rpe_cli(run, case, rng, work):
 
 
 k_cli = C01.with_workdir(rpe_cli)
-KINDS = {"direct": k_direct, "unequal": k_unequal, "cli": k_cli}
+from vmon import threads as _threads
+k_threads = _threads.k_evaluation('rpe', 'RPE evaluation', 'threads:rpe-not-reentrant')
+
+
+KINDS = {"threads": k_threads, "direct": k_direct, "unequal": k_unequal, "cli": k_cli}
 
 
 def main(run):
@@ -450,13 +454,15 @@ def main(run):
     for i in run.mine({"quick": 4, "thorough": 32}[run.tier]):
         k_direct(run, run.case("direct", 2 * 10**6 + i, big=True, unit=["degrees", "radians", "meters", "frames"][i % 4],
                                all_pairs=True))
+    for i in run.mine({"quick": 12, "thorough": 200}[run.tier]):
+        k_threads(run, run.case("threads", i))
     for i in run.mine({"quick": 100, "thorough": 2000}[run.tier]):
         k_unequal(run, run.case("unequal", i))
     for i in run.mine({"quick": 400, "thorough": 8000}[run.tier]):
         k_cli(run, run.case("cli", i))
     for i in run.mine({"quick": 8, "thorough": 160}[run.tier]):
         k_cli(run, run.case("cli", 10**6 + i, real=True))
-    run.need("RPE: value == definition on its pair", "RPE: one value per selected pair",
+    run.need("concurrent rounds: RPE evaluation", "RPE: value == definition on its pair", "RPE: one value per selected pair",
              "RPE: pair end indices match the values in length and order",
              "RPE: unequal lengths refused", "RPE invariant under independent rigid motions",
              "RPE zero for equal relative motions", "zero reference distances skipped (ratio)",
